@@ -477,6 +477,7 @@ namespace
             auto range = s < 0 ? grid.nodes_indices() : grid.nodes_indices(static_cast<fs::node_status>(s));
             std::vector<std::size_t> got;
             std::size_t guard = 0;
+            ctx.current_stage = "forward-node-iteration";
             for (auto it = range.begin(); !(it == range.end()) && guard < 4 * n + 8; ++it, ++guard)
                 got.push_back(*it);
             ++ctx.rep.ops;
@@ -486,6 +487,7 @@ namespace
                   "expected " + std::to_string(want.size()) + " indices, got " + std::to_string(got.size()));
             std::vector<std::size_t> rgot;
             guard = 0;
+            ctx.current_stage = "reverse-node-iteration";
             for (auto it = range.rbegin(); !(it == range.rend()) && guard < 4 * n + 8; ++it, ++guard)
             {
                 // dereferenced exactly as a caller would (the lifetime of what operator*
@@ -500,6 +502,7 @@ namespace
             if (!want.empty())
                 ctx.rep.hit("non-empty-filtered-iterations");
         }
+        ctx.current_stage = "flow-graph-construction";
         // default base levels of a new flow graph
         {
             Program p = Program::parse("single");
@@ -873,25 +876,20 @@ namespace
 
 int main(int argc, char** argv)
 {
-    Args a = parse_args(argc, argv);
-    return run_sharded(a,
-                       [&](Ctx& ctx)
-                       {
-                           if (a.property == "C07")
-                           {
-                               if (ctx.replay_mode)
-                                   c07_replay(ctx, a.replay);
-                               else
-                                   run_c07(ctx);
-                           }
-                           else if (a.property == "C17")
-                               run_c17(ctx);
-                           else if (a.property == "C18")
-                               run_c18(ctx);
-                           else
-                           {
-                               std::fprintf(stderr, "grid harness does not serve %s\n", a.property.c_str());
-                               std::_Exit(2);
-                           }
-                       });
+    return sse_main(argc, argv, { "C07", "C17", "C18" },
+                    [&](Ctx& ctx)
+                    {
+                        const Args& a = ctx.args;
+                        if (a.property == "C07")
+                        {
+                            if (ctx.replay_mode)
+                                c07_replay(ctx, a.replay);
+                            else
+                                run_c07(ctx);
+                        }
+                        else if (a.property == "C17")
+                            run_c17(ctx);
+                        else
+                            run_c18(ctx);
+                    });
 }
